@@ -208,6 +208,15 @@ Definition endpoint_sound (port_required : bool) (s : str) : bool :=
   | None => negb port_required
   end.
 
+(* what the property itself demands of an accepted endpoint (the weaker reading used by the oracle):
+   one safe token whose port is in range; [endpoint_sound] adds the byte set, which is proved too *)
+Definition endpoint_safe (port_required : bool) (s : str) : bool :=
+  safe_token s &&
+  match port_text s with
+  | Some p => if is_nil p then negb port_required else signed_in 1 65535 p
+  | None => negb port_required
+  end.
+
 (* ------------------------------------------------------------------ what mgmt.conf must tokenise to *)
 
 Definition word (s : string) : tok := TW (lit s).
